@@ -12,8 +12,9 @@ CHECKS = {
         "and that link's table adapter (coords_from_df as the code computes it) passes every row exactly once (missing frame numbers = empty steps); a labelling accepted by the monitor satisfies the "
         "trajectory-level statement (consecutive observations <= memory+1 frames and <= search_range apart). Correspondence: link / link_df_iter / link_iter on "
         "generated tables (odd indices, shuffled rows, float frames, gaps) - labels replayed by the Coq monitor (proved sound, C02_monitor_sound) on frames rebuilt from the "
-        "returned table; returned rows and the caller's table compared at pandas level.",
-   note=LINK_NOTE + " Caller-table immutability and index/column preservation are established by correspondence only (values are immutable in the model)."),
+        "returned table; returned rows and the caller's table compared at pandas level. Route T: coords_from_df, coords_from_df_iter, link_iter, link and link_df_iter are REGENERATED from /repo's source on every run (tools/py2coq_coords.py -> coq/Gen/coords.v) and proved equal to the table models with the Linker as interface parameter.",
+   note=LINK_NOTE + " Caller-table immutability and index/column preservation are established by correspondence only (values are immutable in the model).",
+   technique="machine-checked proofs over an executable Gallina model + translator from Python source to Coq (regenerated per run, proved equal to the model) + correspondence run"),
  'C02': dict(
    text="Proof: Properties/C02.v proves (all subnet sizes, cost patterns, histories) that the pruned recursive search returns a minimum-cost one-to-one assignment, "
         "that candidate lists are exactly the in-range destinations plus the null link at search_range^2, that subnets partition sources and share no destination, that "
@@ -44,8 +45,9 @@ CHECKS.update({
    text="Proof: Properties/C11.v - for the step-machine model, linking the movie with drift v*t added using the predictor pos + v*(t1 - t_seen) (applied to every live source, remembered ones "
         "included) equals label for label linking the undrifted movie without predictor, for any movie, velocity, frame numbering and memory; NullPredict is plain linking; labels are valid for "
         "any predictor. Correspondence: link_iter(predictor=...) on drifted lattice movies (|v| up to 1000 px/frame, numbering gaps, blank frames) replayed by the monitor both with the model's "
-        "pred_drift and against the undrifted movie; NullPredict().link_df_iter; random predictors for label uniqueness.",
-   note=LINK_NOTE + " The predictor is a user function wrapped by trackpy.predict.predictor; DriftPredict's own velocity estimation is not exercised."),
+        "pred_drift and against the undrifted movie; NullPredict().link_df_iter; random predictors for label uniqueness. Route T: predict.py and the predictor-consuming code of the hash and of Linker.update_hash are REGENERATED from /repo's source on every run (tools/py2coq_predict.py -> coq/Gen/predict.v); that a predictor only moves the search origin is proved about the generated code.",
+   note=LINK_NOTE + " The predictor is a user function wrapped by trackpy.predict.predictor; DriftPredict's own velocity estimation is not exercised.",
+   technique="machine-checked proofs over an executable Gallina model + translator from Python source to Coq (regenerated per run, proved equal to the model) + correspondence run"),
  'C12': dict(
    text="Proof: Properties/C12.v - adaptive step = plain step whenever every subnet fits the adaptive limit; a subnet that fits is never split; every finally solved sub-group only contains "
         "candidate pairs within its reduced range (no longer link can be made) and is solved optimally with that range as the cost of not linking; a raise exhibits a still-oversize "
@@ -87,13 +89,15 @@ CHECKS.update({
  'C17': dict(
    text="Proof: Properties/C17.v - for every trajectory with distinct frames both msd paths (FFT identity with the S1 recurrence; gap path) return exactly the mean over all pairs n frames "
         "apart, indexed by lag and lag/fps, NaN iff no pair, equal under any row permutation and gap pattern; imsd per particle; emsd = sum N_i m_i / sum N_i over contributing particles; the "
-        "pre-fix code is refuted on the F6/F7/F11 witnesses. Correspondence: exact rational model and monitor vs trackpy.motion.msd/imsd/emsd within a stated tolerance, NaN pattern and index exactly.",
-   note=STAT_NOTE + "np.fft is modelled as the exact autocorrelation."),
+        "pre-fix code is refuted on the F6/F7/F11 witnesses. Correspondence: exact rational model and monitor vs trackpy.motion.msd/imsd/emsd within a stated tolerance, NaN pattern and index exactly. Route T: msd, _msd_N, _msd_gaps, _msd_fft, imsd and emsd are REGENERATED from /repo's source on every run (tools/py2coq_msd.py -> coq/Gen/msd.v) and proved equal to the model for every table; the generated functions are executed next to the model.",
+   note=STAT_NOTE + "np.fft is modelled as the exact autocorrelation.",
+   technique="machine-checked proofs over an executable Gallina model + translator from Python source to Coq (regenerated per run, proved equal to the model) + correspondence run"),
  'C18': dict(
    text="Proof: Properties/C18.v - compute_drift is the running sum of the mean displacement over all same-particle pairs one frame apart, independent of row order; subtract_drift subtracts "
         "exactly that curve per frame and touches nothing else; re-measured drift is zero and a rigid common motion is removed under the property's premise; monitor sound. Correspondence: "
-        "exact rational model vs trackpy on gapped/shuffled tables (2-D/3-D); caller-table immutability (data, index values and names) by comparison.",
-   note=STAT_NOTE + "One position column at a time (pandas applies the same column-independent pipeline to each)."),
+        "exact rational model vs trackpy on gapped/shuffled tables (2-D/3-D); caller-table immutability (data, index values and names) by comparison. Route T: compute_drift and subtract_drift are REGENERATED from /repo's source on every run (tools/py2coq_drift.py -> coq/Gen/drift.v) over named pandas primitives and proved equal to the model per position column.",
+   note=STAT_NOTE + "One position column at a time (pandas applies the same column-independent pipeline to each).",
+   technique="machine-checked proofs over an executable Gallina model + translator from Python source to Coq (regenerated per run, proved equal to the model) + correspondence run"),
  'C19': dict(
    text="Proof (partial): Properties/C19.v - cluster: same id iff connected by a chain of features within separation, sizes = component sizes, ids never reused across frames, monitor sound; "
         "proximity = distance to the nearest other feature; g(r) = corrected pair histogram / (density*N*dr), invariant under permutation and (given boundary) translation; 2-D edge correction: "
@@ -124,7 +128,7 @@ CHECKS.update({
         "(position, mass, size(s), signal, raw_mass) whenever every evaluated window has non-zero mass; the reported position is the centroid of the very neighbourhood on which mass, size, "
         "signal and raw_mass were measured, also when the iteration limit stops right after a shift; that neighbourhood is the full ellipse and lies wholly inside the image (shift-and-clip "
         "invariant); zero mass separates the engines. Correspondence: exact rational models vs refine_com_arr with engine='python' and engine='numba' (interpreted) on integer images, 2-D/3-D, "
-        "iso/anisotropic, iteration limits 1-20, starts far from the blob and at the clipping bounds; masses exact, positions/sizes within 2^-40 relative.",
+        "iso/anisotropic, iteration limits 1-20, starts far from the blob and at the clipping bounds; masses exact, positions/sizes within 2^-40 relative. Route T also for the pure-python engine and the dispatch: _refine, refine_com_arr and refine_com are REGENERATED (tools/py2coq_refine.py -> coq/Gen/refine.v) and proved equal to the reference model and to the kernel runs.",
    note=STAT_NOTE + "The four numba kernels are REGENERATED from /repo's source on every run (tools/py2coq_com.py -> coq/Gen/com_kernels.v, fail-closed translator, trusted) and proved equal, "
         "cell for cell, to the hand-written kernel model (C07_generated_*); the python engine (_refine) and masks.py are hand-modelled and tied by correspondence. ecc is sliced out of the translation "
         "and compared engine-vs-engine only. numba is absent: 'compiled' execution is not exercised.",
@@ -136,7 +140,7 @@ CHECKS.update({
         "row has mass > minmass, size < maxsize, no two rows closer than separation, ep never negative (positive, +inf or NaN for positive noise); topn returns at most n rows, the most massive; "
         "raising minmass / lowering maxsize / setting topn only removes rows and changes no kept value, and filtering the laxer result equals the direct result (which justifies the hook-free "
         "tie); monitors sound; the pre-fix code is refuted on the F2/F3 witnesses. Correspondence: locate run unrestricted and restricted on noise textures and blob images (2-D/3-D, "
-        "iso/anisotropic, preprocess on/off), rows matched bit for bit, verified monitors on every output, exact rational ep vs float ep. The composed model of locate (C06 maxima, C07 refinement, tail) is proved to return only features inside the image (C08_inside_image), and every ep column of both branches of _static_error is proved never negative.",
+        "iso/anisotropic, preprocess on/off), rows matched bit for bit, verified monitors on every output, exact rational ep vs float ep. The composed model of locate (C06 maxima, C07 refinement, tail) is proved to return only features inside the image (C08_inside_image), and every ep column of both branches of _static_error is proved never negative. Route T: the tail of locate, _static_error / static_error / measure_noise and batch are REGENERATED from /repo's source on every run (tools/py2coq_tail.py -> coq/Gen/tail.v) and proved equal to the models.",
    note=STAT_NOTE + "'Inside the image' is monitored on outputs; its proof is C07's window invariant. Everything before the tail (bandpass, maxima, refinement) is C06/C07/C10. topn=0 (returns everything) "
         "and ep=0.0 at exactly zero measured noise are outside / at the edge of the property and only counted."),
 })
@@ -157,8 +161,10 @@ CHECKS.update({
         "than separation to a point the frame already holds (masking argument; the fixed bg_radius provably covers it); candidates are within range of a searched position, pairwise "
         "separated, outside the margin with finite mass >= minmass; the image search is an admissible oracle; by induction over frames (with memory) every output frame satisfies the safety "
         "clauses; monitor sound; the pre-fix bg_radius (F12) and edge test (F16) are refuted on witnesses. Correspondence: get_relocate_candidates driven directly and compared as a set with "
-        "masses and ordering; find_link on blob movies and noise textures checked by the monitor. Completeness half proved for the model (C14_movie_complete, C14_equals_detect_then_link) under boolean hypotheses evaluated in Coq on every generated movie.",
+        "masses and ordering; find_link on blob movies and noise textures checked by the monitor. Completeness half proved for the model (C14_movie_complete, C14_equals_detect_then_link) under boolean hypotheses evaluated in Coq on every generated movie. Route T: FindLinker.percentile_threshold / get_relocate_candidates / relocate are REGENERATED from /repo's source on every run (tools/py2coq_findlink.py -> coq/Gen/findlink.v) and proved to be the model's relocation oracle; the safety theorems are restated for it.",
    note=STAT_NOTE + "The completeness half (complete trajectories whatever is withheld; equals detect-then-link when nothing is withheld) is an analytic statement about blob images: no theorem "
         "is possible, it is monitored on generated movies with withholding patterns. Isotropic parameters, integer pixel coordinates, no predictor; subnet bookkeeping of FindLinker is tied "
         "only through the monitor."),
 })
+,
+   technique="machine-checked proofs over an executable Gallina model + translator from Python source to Coq (regenerated per run, proved equal to the model) + correspondence run"
